@@ -13,6 +13,7 @@ import playback.tape_cassette as tc
 from playback.tape_cassette import TapeCassette
 
 PROPERTY = 'C14'
+TECHNIQUE = 'CrossHair/z3 symbolic execution of the real matcher over symbolic filter and value trees (Union types, symbolic operator text) against a reference matcher'
 FUNCTIONS = ['playback/tape_cassette.py::TapeCassette.match_against_recorded_metadata',
              'playback/tape_cassette.py::TapeCassette._match_metadata_value',
              'playback/tape_cassette.py::TapeCassette._operator_filter',
